@@ -126,6 +126,7 @@ def pairProps (g : Globals) (old new : List Stmt) (obs : List SExp) : Verdict :=
     let pD := Scope.Proved.down g old new dbOld dbNew
     let unlessProved := fun (p : Bool) (r : Option String) => if p then none else r
     let provedNote := fun (pid : String) (p : Bool) => (if p then { items := [s!"proved[{pid}]"] } else okV : Verdict)
+    ({ items := [s!"scope[{Scope.Proved.whyNot g old new dbOld dbNew}]"] } : Verdict).and <|
     (provedNote "C01" pU).and <| (provedNote "C02" pD).and <| (provedNote "C03" (pU && pD)).and <|
     (judge "C01" (unlessProved pU (ordering r01 (withReader (Scope.c01 g dbOld dbNew old new)))) (r01 true)).and <|
     (judge "C02" (unlessProved pD (ordering r02 (withReader (Scope.c02 g dbOld dbNew old new)))) (r02 true)).and <|
